@@ -42,6 +42,10 @@ pub const FEATURES: [&str; 19] = [
     "output-tokens-cancel",
 ];
 
+fn validity_bounds(mask: u32) -> (i128, i128) {
+    (if has(mask, "signers") { 0 } else { 100 }, if has(mask, "metadata") { 0 } else { 900 })
+}
+
 fn has(mask: u32, name: &str) -> bool {
     let i = FEATURES.iter().position(|f| *f == name).unwrap();
     mask & (1 << i) != 0
@@ -150,7 +154,9 @@ pub fn build(mask: u32, network: u8, set_rank: usize) -> tir::Tx {
         tx.adhoc.push(adhoc("treasury_donation", vec![("coin", tir::Expression::Number(5))]));
     }
     if has(mask, "validity") {
-        tx.validity = Some(tir::Validity { since: tir::Expression::Number(100), until: tir::Expression::Number(900) });
+        // a bound of 0 is a bound (until slot 0: never valid): which of the two is 0 goes with two other features
+        let (since, until) = validity_bounds(mask);
+        tx.validity = Some(tir::Validity { since: tir::Expression::Number(since), until: tir::Expression::Number(until) });
     }
     tx
 }
@@ -296,6 +302,13 @@ pub fn check_payload(payload: &[u8], reported_hash: &[u8], pp: &PP, o: &mut Outc
             if let Some(d) = datums_node {
                 buf.extend_from_slice(&payload[d.start..d.end]);
             }
+            if pp.cost_models & (1 << version) == 0 {
+                viol(
+                    o,
+                    format!("script-data-hash|made-without-the-cost-model|plutus-v{}", version + 1),
+                    "the protocol parameters hold no cost model for the scripts' language, yet a script_data_hash was produced (it cannot commit to the language view the ledger will use)".into(),
+                );
+            }
             if pp.cost_models & (1 << version) != 0 {
                 buf.extend(language_views(version, &crate::common::pipeline::cost_model_variant(version, pp.cost_variant)));
                 if *h != txdecode::blake2b256(&buf) {
@@ -424,6 +437,18 @@ fn judge(mask: u32, config: u8, o: &mut Outcome) {
     };
     o.class("compiled");
     check_payload(&first.payload, &first.hash, &pp, o, &detail);
+    // the validity interval: present exactly as written, a bound of 0 included
+    if let Ok(rec) = txdecode::decode_tx(&first.payload) {
+        let want = if has(mask, "validity") {
+            let (a, b) = validity_bounds(mask);
+            (Some(a as u64), Some(b as u64))
+        } else {
+            (None, None)
+        };
+        if (rec.validity_start, rec.ttl) != want {
+            o.violate(Violation::new("validity|bounds-differ-from-the-template", format!("the template's interval is {want:?}, the body has start {:?} / ttl {:?}", rec.validity_start, rec.ttl)).with_detail(detail.clone()));
+        }
+    }
     // 7. determinism
     let again = c1.compile(&AnyTir::V1Beta0(tx.clone())).ok();
     if again.as_ref().map(|c| &c.payload) != Some(&first.payload) {
